@@ -82,7 +82,8 @@ LEVEL_TEXT = ("Lean 4 theorems over an executable model of Buffer.save_to_undo_s
               "repeat, undo bindings never snapshot) which the kernel re-decides on the regenerated table on every run, "
               "together with a pin of every function that touches the stacks or calls undo/redo/save_to_undo_stack. "
               "Grouping: exactly the bindings with bits (save when not a repeat, not when a repeat) -- self-insert, "
-              "Backspace, Delete (regenerated) -- are undone as ONE group: proved for insertion runs, Backspace and "
+              "Backspace, Delete and the Vi multiple-cursor insert binding (regenerated) -- are undone as ONE group: "
+              "proved for insertion runs (also at several cursors), Backspace and "
               "Delete runs, runs followed by motions / Escape, runs with CPR responses inside, two runs split by a "
               "motion (first undo = state before the second run, second undo = state before the first), and a "
               "default-rule handler is proved NOT grouped; an exception, KeyProcessor.reset() or a new prompt starts a "
@@ -109,7 +110,8 @@ RULE = ("api: every sequence over {save(1), save(0), ins a, ins b, backspace, cu
         "phases); keys: (cursor position reports are injected at random key boundaries of the sampled / random sessions) "
         "every key sequence up to the tier's length over a small emacs and a small vi alphabet (incl. undo keys, a redo "
         "binding, custom bindings with if_no_repeat / only-on-repeat rules, two bindings that raise after their edit), "
-        "every sequence with a read-only phase over a Vi alphabet, every sequence with a new prompt (Buffer.reset + "
+        "every Vi multiple-cursor insert session (c-v, motion, I / A, then every body up to the tier's length over {x, y, "
+        "left, backspace, CPR}, Escape, u u / count u / redo), every sequence with a read-only phase over a Vi alphabet, every sequence with a new prompt (Buffer.reset + "
         "Application.reset) over an emacs alphabet, sessions with a completer (asynchronous insertions), then seeded "
         "random sessions (<= 40 keys over ~70 emacs / ~60 vi key tokens, single and multi line, with history, macros, "
         "counts, paste, raising bindings, read-only phases, new prompts, with tails of repeated undo/redo); mkeys: every "
@@ -123,14 +125,16 @@ EXHAUSTIVE = True
 EXHAUSTIVE_SCOPE = {
     "quick": "api: all sequences len<=4 over 8 calls x 2 initial docs, all command sequences len<=4 over 7 commands, all "
              "read-only sequences len<=5 over 6 commands; keys: all sequences len<=2 over 11 emacs keys and 10 vi keys "
-             "(+150 sampled of len 3-5 each), all len<=3 with a read-only phase over 7 Vi tokens (+120 sampled), all "
+             "(+150 sampled of len 3-5 each), all multiple-cursor insert bodies len<=3 over 5 tokens (+40 sampled), all len<=3 "
+             "with a read-only phase over 7 Vi tokens (+120 sampled), all "
              "len<=3 with a new prompt over 7 emacs tokens (+80 sampled); mkeys: all len<=3 containing C-r over 7 search "
              "keys, all len<=3 over 6 form keys (+60 sampled); fully modelled emacs keys: all sequences len<=3 over {a, b, "
              "backspace, left, c-k, c-_, c-x c-u, redo, c-u} (+250 sampled of len 4-5); fully modelled vi keys: all "
              "sequences len<=3 over {i, a, A, x, X, u, 2, 3, escape, redo} (+200 sampled of len 4-6)",
     "thorough": "api: all sequences len<=5 over 8 calls x 2 initial docs, all command sequences len<=5 over 7 commands, "
                 "all read-only sequences len<=6 over 6 commands; keys: all sequences len<=3 over 11 emacs keys and 10 vi "
-                "keys (+1000 sampled of len 4-6 each), all len<=4 with a read-only phase (+1200 sampled), all len<=4 with "
+                "keys (+1000 sampled of len 4-6 each), all multiple-cursor insert bodies len<=4 over 5 tokens (+400 sampled), all "
+                "len<=4 with a read-only phase (+1200 sampled), all len<=4 with "
                 "a new prompt (+800 sampled); mkeys: all len<=4 containing C-r over 7 search keys, all len<=4 over 6 "
                 "form keys (+600 sampled); fully modelled emacs keys: all sequences len<=4 over 9 keys (+2000 sampled of "
                 "len 5-7); fully modelled vi keys: all sequences len<=4 over 10 keys (+1500 sampled of len 5-8)"}
@@ -594,6 +598,7 @@ async def _session(case):
         pres = [snap(b) for b in bufs]
         insert = (app.vi_state.input_mode == InputMode.INSERT) if mode == EditingMode.VI else True
         sel = app.current_buffer.selection_state is not None
+        multi_ins = mode == EditingMode.VI and app.vi_state.input_mode == InputMode.INSERT_MULTIPLE
         cur.update(on=True, atoms=[[] for _ in bufs], steps=[[] for _ in bufs], saved=[0] * nb, fix_nav=False,
                    fix_buf=-1, ro_exc=False)
         o_hcall = handler.call
@@ -636,7 +641,7 @@ async def _session(case):
                 "prev": "N" if out == "raised" else hid_of(kp._previous_handler),
                 "fed": fed["i"], "fedx": fed["i"] - n_cpr_before(fed["i"]),
                 "key": fed["key"], "nkeys": len(key_sequence),
-                "name": getattr(handler.handler, "__name__", "?"), "insert": insert and not sel,
+                "name": getattr(handler.handler, "__name__", "?"), "insert": insert and not sel, "multi_ins": multi_ins,
                 "bkeys": [getattr(x, "value", x) for x in handler.keys],
                 "ins_after": app.vi_state.input_mode == InputMode.INSERT,
                 "data": key_sequence[-1].data if key_sequence else "",
@@ -932,6 +937,28 @@ def _is_char_insert(r):
     return k >= 1 and t1 == t0[:c0] + d * k + t0[c0:] and c1 == c0 + k
 
 
+def _is_multi_insert(r):
+    """a call in Vi multiple-cursor insert mode (c-v, motion, I / A) that inserted the typed printable character at
+    one or more cursors: the new text is the old one with k >= 1 copies of that character inserted"""
+    d = r["data"]
+    if not (r.get("multi_ins") and r["nkeys"] == 1 and isinstance(d, str) and len(d) == 1 and d.isprintable()
+            and r["key"] == d and not r["atoms"] and r.get("out", "ok") == "ok"):
+        return False
+    t0, t1 = r["pre"][0], r["post"][0]
+    k = len(t1) - len(t0)
+    if k < 1:
+        return False
+    i = extra = 0
+    for ch in t1:
+        if i < len(t0) and ch == t0[i]:
+            i += 1
+        elif ch == d:
+            extra += 1
+        else:
+            return False
+    return i == len(t0) and extra == k
+
+
 def _is_char_delete(r, key):
     if not (r["insert"] and r["nkeys"] == 1 and r["key"] == key and not r["atoms"] and r.get("out", "ok") == "ok"):
         return False
@@ -964,7 +991,7 @@ def _view(tr, bi):
             out.append({"restart": True, "doc": d["post"], "post": d["post"], "U": d["U"], "R": d["R"], "fed": r["fed"]})
             continue
         if r["focus_pre"] != bi:
-            d["insert"] = False          # typed characters went to another buffer
+            d["insert"] = d["multi_ins"] = False          # typed characters went to another buffer
         d["focused"] = r["focus_pre"] == bi
         out.append(d)
     return out
@@ -1108,16 +1135,21 @@ def _buffer_oracle(case, tr, bi):
     if not odd:
         i = 0
         n = len(cmds)
+        prev_run = None          # (first, last, index of the command after the text-preserving commands) of the run before
         while i < n:
-            kinds = [("ins", _is_char_insert(cmds[i])), ("c-h", _is_char_delete(cmds[i], "c-h")),
-                     ("delete", _is_char_delete(cmds[i], "delete"))]
+            kinds = [("ins", _is_char_insert(cmds[i])), ("mins", _is_multi_insert(cmds[i])),
+                     ("c-h", _is_char_delete(cmds[i], "c-h")), ("delete", _is_char_delete(cmds[i], "delete"))]
             kind = next((k for k, ok in kinds if ok), None)
             if kind is None:
                 i += 1
                 continue
 
             def member(r):
-                return _is_char_insert(r) if kind == "ins" else _is_char_delete(r, kind)
+                if kind == "ins":
+                    return _is_char_insert(r)
+                if kind == "mins":
+                    return _is_multi_insert(r)
+                return _is_char_delete(r, kind)
             j = i
             # consecutive typed keys; a CPR response in between must be invisible (fedx skips them)
             while (j + 1 < n and member(cmds[j + 1]) and cmds[j + 1]["fedx"] == cmds[j]["fedx"] + 1
@@ -1133,15 +1165,36 @@ def _buffer_oracle(case, tr, bi):
             if k < n:
                 a, b = recs.index(cmds[i]), recs.index(cmds[k])
                 clean = all(r.get("cpr") for r in recs[a:b] if any(r.get(m) for m in MARKERS))
+            changed = tuple(cmds[j]["post"])[0] != tuple(cmds[i]["pre"])[0]
             if (left_ok and clean and k < n and cmds[k]["steps"] and cmds[k]["steps"][0][0] == "U"
-                    and not cmds[k]["steps"][0][3]
-                    and tuple(cmds[j]["post"])[0] != tuple(cmds[i]["pre"])[0]):
+                    and not cmds[k]["steps"][0][3] and changed):
                 got = tuple(cmds[k]["steps"][0][2])
                 if got != tuple(cmds[i]["pre"]):
                     v.append({"signature": GROUP_SIG,
                               "msg": f"{tag}run of {j - i + 1} '{kind}' calls starting at call#{i} then undo restored "
                                      f"{got} instead of {cmds[i]['pre']}: mode={case['mode']} "
                                      f"init=({case['text']!r},{case['cur']}) keys={names[:cmds[k]['fed'] + 1]}"})
+                elif prev_run is not None and prev_run[2] == i:
+                    # two runs split only by text-preserving commands: the SECOND undo step (same command with a
+                    # count, or the next command) must restore the state from before the FIRST run
+                    usteps = [st for st in cmds[k]["steps"] if st[0] == "U" and not st[3]]
+                    second = usteps[1] if len(usteps) > 1 else None
+                    if (second is None and len(cmds[k]["steps"]) == 1 and k + 1 < n and cmds[k + 1]["steps"]
+                            and cmds[k + 1]["steps"][0][0] == "U" and not cmds[k + 1]["steps"][0][3]
+                            and recs.index(cmds[k + 1]) == recs.index(cmds[k]) + 1 and not cmds[k + 1]["saved"]):
+                        second = cmds[k + 1]["steps"][0]
+                    if second is not None and tuple(second[2]) != tuple(cmds[prev_run[0]]["pre"]):
+                        v.append({"signature": GROUP_SIG,
+                                  "msg": f"{tag}two runs (calls #{prev_run[0]}.. and #{i}..) split by text-preserving commands: "
+                                         f"the second undo restored {tuple(second[2])} instead of {cmds[prev_run[0]]['pre']}: "
+                                         f"mode={case['mode']} init=({case['text']!r},{case['cur']}) keys={names[:cmds[k]['fed'] + 2]}"})
+            # remember this run when it may be the first of two: it started a group, changed the text, and is followed
+            # by text-preserving commands only, up to cmds[k]
+            prev_run = None
+            if left_ok and changed and k < n and not cmds[k]["steps"]:
+                a, b = recs.index(cmds[i]), recs.index(cmds[k])
+                if all(r.get("cpr") for r in recs[a:b] if any(r.get(m) for m in MARKERS)):
+                    prev_run = (i, j, k)
             i = j + 1
 
     # repeated undo reaches the text the (last) session of this buffer started with
@@ -1475,6 +1528,22 @@ def _key_cases(quick, rng):
         odd = len(tup) % 2
         kcases.append({"kind": "keys", "mode": "vi", "multiline": False, "text": "xy" if odd else "",
                        "cur": 1 if odd else 0, "history": [], "ops": _flat([RO_VI_ALPHA[i] for i in tup])})
+    # ---- Vi multiple-cursor insert mode (c-v, motion, I / A): the typed characters go to the grouped binding
+    # `_insert_text_multiple_cursors`; runs, runs with a motion / Backspace / CPR inside, two runs, then Escape, u, u
+    body_alpha = ["x", "y", "left", "c-h", ["<cpr>", None]]
+    prefixes = [["escape", "c-v", "j", "I"], ["escape", "c-v", "j", "A"], ["escape", "c-v", "l", "j", "I"],
+                ["escape", "l", "c-v", "j", "k", "j", "A"]]
+    maxlen = 3 if quick else 4
+    bodies = [t for n in range(1, maxlen + 1) for t in itertools.product(range(len(body_alpha)), repeat=n)
+              if 0 in t or 1 in t]
+    bodies += [tuple(rng.randrange(len(body_alpha)) for _ in range(rng.choice([4, 5, 6, 7])))
+               for _ in range(40 if quick else 400)]
+    for idx, body in enumerate(bodies):
+        pre = prefixes[idx % 2] if quick else prefixes[idx % 4]
+        tail = [["escape", "u", "u"], ["escape", "u", "u", "f12"], ["escape", "2", "u"], ["escape", "u", "f12", "u"]][idx % 4]
+        text = ["ab\ncd", "ab\ncd\nef", "a\n\nbc"][idx % 3]
+        kcases.append({"kind": "keys", "mode": "vi", "multiline": True, "text": text, "cur": 0, "history": [],
+                       "ops": _flat(pre + [body_alpha[i] for i in body] + tail)})
     # ---- a new prompt on the same PromptSession (Buffer.reset + Application.reset), exhaustive small scope + sample
     tups = [t for n in range(1, maxlen + 1) for t in itertools.product(range(len(RESTART_ALPHA)), repeat=n)]
     tups = [t for t in tups if 5 in t or 6 in t]
